@@ -85,7 +85,7 @@ def gen_pair(rng, tier, seed, index=None):
     if rng.random() < 0.05:
         a['answers']['agreed_passkey'] = b['answers']['agreed_passkey'] = 0
     return {'i': a, 'r': b, 'starter': rng.choice(['central', 'central', 'peripheral_request']), 'negative': neg, 'fault': fault,
-            'profile': rng.choice(PROFILE_NAMES), 'reconnect': rng.random() < 0.7, 'repair': rng.random() < 0.06}
+            'profile': rng.choice(PROFILE_NAMES), 'reconnect': rng.random() < 0.7, 'repair': rng.random() < 0.2}
 
 
 SMP_CODE = {'confirm': 0x03, 'random': 0x04, 'public_key': 0x0C, 'dhkey_check': 0x0D}
@@ -255,6 +255,7 @@ def run_pair(case):
                 sim.violation_once('irk', 'irk-copy-differs:distributed-by-initiator', 'responder does not hold the initiator IRK')
         # ---------------------------------------------------------------- re-pair on the same connection must not hang
         if case.get('repair'):
+            n_r0 = len(events['R'])
             t2 = sim.loop.create_task(c0.pair())
             st2 = sim.loop.drive(t2.done, vt_budget=60.0, step_budget=400_000)
             if st2 != 'done':
@@ -262,6 +263,21 @@ def run_pair(case):
                 t2.cancel()
                 sim.loop.settle()
                 return result(sim, nontrivial=True)
+            # ... and has the same outcome on both sides, like any pairing
+            n_r = len(events['R'])
+            sim.loop.drive(lambda: len(events['R']) > n_r0, vt_budget=40.0, step_budget=400_000)
+            sim.loop.settle(vt_budget=2.0)
+            ok_i = not t2.cancelled() and t2.exception() is None
+            new_r = events['R'][n_r0:]
+            if not new_r:
+                sim.violation_once('repair', f'second-pairing:responder-reports-nothing:{"sc" if sc else "legacy"}:initiator={"ok" if ok_i else "failed"}', 'the responder reported neither pairing nor pairing_failure for the second pairing')
+            else:
+                ok_r = new_r[-1][0] == 'pairing'
+                if ok_i != ok_r:
+                    sim.violation_once('repair', f'second-pairing-outcome-differs:{"sc" if sc else "legacy"}:initiator={"ok" if ok_i else "failed"}',
+                                       f'initiator {"succeeded" if ok_i else "failed: " + repr(t2.exception())}, responder {"succeeded" if ok_r else "failed"}')
+                elif ok_i:
+                    sim.probe('second_pairing_on_same_connection_succeeded')
         # ---------------------------------------------------------------- reconnection: same key on both sides
         if case['reconnect'] and A['bonding'] and B['bonding'] and not case.get('repair'):
             central_has_key = sc or bool(A['resp_dist'] & B['resp_dist'] & 1)
